@@ -300,6 +300,27 @@ class Interp:
             if picked:
                 e = _Pick().visit(e)
         e = _Subst(self.env).visit(e)
+        if any(isinstance(n, ast.FormattedValue) and isinstance(n.value, ast.JoinedStr) for n in ast.walk(e)):
+            # f"{a} {f'{b} {c}'}" is f"{a} {b} {c}": an f-string placed in a plain replacement field is spliced in
+            class _Flat(ast.NodeTransformer):
+                def visit_JoinedStr(self, n):
+                    self.generic_visit(n)
+                    vals = []
+                    for v in n.values:
+                        if isinstance(v, ast.FormattedValue) and isinstance(v.value, ast.JoinedStr) and v.conversion == -1 and v.format_spec is None:
+                            vals.extend(v.value.values)
+                        else:
+                            vals.append(v)
+                    merged = []
+                    for v in vals:
+                        if isinstance(v, ast.Constant) and merged and isinstance(merged[-1], ast.Constant):
+                            merged[-1] = ast.Constant(value=merged[-1].value + v.value)
+                        else:
+                            merged.append(v)
+                    n.values = merged
+                    return n
+
+            e = _Flat().visit(e)
         ast.fix_missing_locations(e)
         return ast.unparse(e)
 
